@@ -19,7 +19,7 @@ for d in $SRC/[A-Z]*/[a-z]; do
     ( cd $wt && go test -vet=off -count=1 ./... && (cd internal/app && go test -vet=off -count=1 ./...) ) >/dev/null 2>&1 || status="existing-tests-fail"
   fi
   demo_with="n/a"; demo_without="n/a"
-  harmless=no; case $x in h|p|q|v|y) harmless=yes;; esac
+  harmless=no; case $x in h|p|q|v|y|x) harmless=yes;; esac
   if [ $status = ok ] && [ $harmless = yes ]; then
     # harmless rewrite: the equivalence test must pass with and without the change
     if [ -f $d/equiv_test.go ]; then
@@ -56,7 +56,7 @@ for d in $SRC/[A-Z]*/[a-z]; do
 import json,sys,os
 name,pid,d=sys.argv[1:4]
 notes=open(os.path.join(d,'notes.md')).read() if os.path.exists(os.path.join(d,'notes.md')) else ''
-harmless = name.endswith(("-h","-p","-q","-v","-y"))
+harmless = name.endswith(("-h","-p","-q","-v","-y","-x"))
 json.dump({"id":name,("anchored_in_property" if harmless else "breaks_property"):pid,"kind":("harmless-rewrite" if harmless else "breaking"),"author":"independent sub-agent (given only the property text and a scratch worktree)",
   "needs_to_manifest":notes.strip()[:1500],
   "confirmed":{"applies_to":"/repo HEAD at archive time","builds":"go build ./... + internal/app + GOOS=js GOARCH=wasm wasm/main.go","existing_tests":"go test -vet=off -count=1 ./... (root and internal/app) pass with the change",
